@@ -931,11 +931,29 @@ func (r Registry[R, T]) LinkStream(
 			}
 
 			if msg.Request != nil {
-				requests <- *msg.Request
+				select {
+				case requests <- *msg.Request:
+				case <-ctx.Done():
+					// The readers may have stopped already, don't block forever
+					decodeErr = ctx.Err()
+
+					close(decodeDone)
+
+					return
+				}
 			}
 
 			if msg.Response != nil {
-				responses <- *msg.Response
+				select {
+				case responses <- *msg.Response:
+				case <-ctx.Done():
+					// The readers may have stopped already, don't block forever
+					decodeErr = ctx.Err()
+
+					close(decodeDone)
+
+					return
+				}
 			}
 		}
 	}()
